@@ -265,14 +265,48 @@ def simple_body(fnode):
     return params, defaults, ret
 
 
-def inline_calls(e, R, mod, depth=3):
-    """replace calls to straight-line module-level repository helpers by their return expression"""
+def inline_calls(e, R, mod, depth=3, class_q=None):
+    """replace calls to straight-line repository helpers (module-level functions, and `self.m()` methods /
+    `self.p` properties of class_q) by their return expression"""
     if depth <= 0:
         return e
 
     class Inl(ast.NodeTransformer):
+        def visit_Attribute(self, n):
+            self.generic_visit(n)
+            if class_q and isinstance(n.value, ast.Name) and n.value.id == "self" and isinstance(n.ctx, ast.Load):
+                q = R.lookup_method(class_q, n.attr)
+                f = R.funcs.get(q) if q else None
+                if f is not None and f.is_property and f.name.startswith("_"):
+                    sb = simple_body(ast.FunctionDef(name=f.node.name, args=f.node.args, body=f.node.body, decorator_list=[], returns=None, type_params=[]))
+                    if sb is not None:
+                        return inline_calls(sb[2], R, f.mod, depth - 1, class_q)
+            return n
+
         def visit_Call(self, n):
             self.generic_visit(n)
+            if class_q and isinstance(n.func, ast.Attribute) and isinstance(n.func.value, ast.Name) and n.func.value.id == "self":
+                q = R.lookup_method(class_q, n.func.attr)
+                f = R.funcs.get(q) if q else None
+                if f is None or f.is_property:
+                    return n
+                sb = simple_body(f.node)
+                if sb is None:
+                    return n
+                params, defaults, ret = sb
+                params = params[1:]
+                if any(isinstance(a, ast.Starred) for a in n.args) or any(k.arg is None for k in n.keywords):
+                    return n
+                binding = dict(zip(params, n.args))
+                for k in n.keywords:
+                    binding[k.arg] = k.value
+                for p in params:
+                    if p not in binding:
+                        if p in defaults:
+                            binding[p] = defaults[p]
+                        else:
+                            return n
+                return inline_calls(inline(ret, binding, depth=1), R, f.mod, depth - 1, class_q)
             if not isinstance(n.func, ast.Name):
                 return n
             q = R.chase(mod, n.func.id)
@@ -297,6 +331,6 @@ def inline_calls(e, R, mod, depth=3):
                     else:
                         return n
             out = inline(ret, binding, depth=1)
-            return inline_calls(out, R, f.mod, depth - 1)
+            return inline_calls(out, R, f.mod, depth - 1, class_q)
 
     return Inl().visit(copy.deepcopy(e))
